@@ -54,7 +54,7 @@ theorem sigRel_of_res (δ : Nat) (r : Except Err Unit) : SigRel δ 0 (sigOf r) (
   | .error e => exact rfl
 
 section
-variable {env : Env κ} {inpS inpW : Bytes} {δ : Nat} {K : Nat → κ → κ → Prop}
+variable {env : Env κ} {inpS inpW : Bytes} {δ : Nat} {K : Nat → κ → κ → Prop} {Loc : κ → Nat → Prop}
 
 /-- all lexer validity flags off -/
 def Ab.noLex (ab : Ab) : Prop :=
@@ -87,7 +87,7 @@ theorem CRel.pos {cs cw : Common} (hc : CRel δ 0 cs cw) (h1 : 1 ≤ cs.nextPos)
   unfold Common.pos; omega
 
 /-- `emit_lexeme` for non-tag lexemes, no text debt -/
-theorem lexEmitNonTag_sim (hops : OpsSim env.ops inpS inpW δ K) {ab ab' : Ab} {cs cw : Common}
+theorem lexEmitNonTag_sim (hops : OpsSim env.ops inpS inpW δ K Loc) {ab ab' : Ab} {cs cw : Common}
     {ls lw ls0 lw0 : LexRegs} {xs xw : Ctx κ} (o : Option NonTagOutline) (es : Nat)
     (hc : CRel δ 0 cs cw) (hl : LexRel δ 0 ab cs.nextPos ls0 lw0)
     (hsim : xw.sim = xs.sim) (hpc : xs.prevConsumed = xw.prevConsumed + δ) (hK : K 0 xs.sink xw.sink)
@@ -120,10 +120,11 @@ theorem ActSim.ret {ab' : Ab} {must : Bool} {ms mw : M κ} (h : MRel δ 0 0 ab' 
   Or.inr ⟨trivial, fun _ => ⟨h, hK⟩, fun _ _ hh => by cases hh⟩
 
 /-- `emit_text`, possibly repaying a text debt -/
-theorem lexEmitText_sim (hops : OpsSim env.ops inpS inpW δ K) {d : Nat} {ab ab' : Ab} {cs cw : Common}
+theorem lexEmitText_sim (hops : OpsSim env.ops inpS inpW δ K Loc) {d : Nat} {ab ab' : Ab} {cs cw : Common}
     {ls lw : LexRegs} {xs xw : Ctx κ}
     (hc : CRel δ 0 cs cw) (hl : LexRel δ d ab cs.nextPos ls lw) (hP : ab.P = true)
     (hsim : xw.sim = xs.sim) (hpc : xs.prevConsumed = xw.prevConsumed + δ) (hK : K d xs.sink xw.sink)
+    (hloc : 0 < d → Loc xs.sink ls.lexemeStart)
     (hn : ab'.noLex) :
     ActSim δ K ab' true (lexEmitText env inpS cs ls xs) (lexEmitText env inpW cw lw xw) := by
   have hp := hl.p hP
@@ -144,9 +145,9 @@ theorem lexEmitText_sim (hops : OpsSim env.ops inpS inpW δ K) {d : Nat} {ab ab'
         (Or.inl ⟨rfl, rfl⟩) ⟨rfl, rfl⟩ (Or.inl ⟨rfl, rfl⟩)
   · have hd0 : 0 < d := Nat.pos_of_ne_zero hd
     rw [if_pos (show cw.pos > lw.lexemeStart by omega)]
-    have hop := hops.text xw.prevConsumed lw.lexemeStart cw.pos d cw.lastTextType xs.sink xw.sink hK hd0
-      (by omega) (by omega)
     have e1 : lw.lexemeStart + d - δ = ls.lexemeStart := by omega
+    have hop := hops.text xw.prevConsumed lw.lexemeStart cw.pos d cw.lastTextType xs.sink xw.sink hK
+      (by rw [e1]; exact hloc hd0) hd0 (by omega) (by omega)
     have e2 : cw.pos - δ = cs.pos := by omega
     rw [e1, e2, ← hpc, hc.lastTextType] at hop
     rw [lexEmitNonTag_eq env inpW, hc.lastTextType]
@@ -213,7 +214,7 @@ theorem andThen_sim {ab1 ab2 : Ab} {rs rw : M κ × Option Signal} {gs gw : M κ
           exact hdir dr bm (by rw [hrs]; exact hh)
 
 /-- `emit_eof` -/
-theorem lexEmitEof_sim (hops : OpsSim env.ops inpS inpW δ K) {ab : Ab} {ms mw : M κ}
+theorem lexEmitEof_sim (hops : OpsSim env.ops inpS inpW δ K Loc) {ab : Ab} {ms mw : M κ}
     (h : MRel δ 0 0 ab .none ms mw) (hK : K 0 ms.x.sink mw.x.sink) (hP : ab.P = true) (hn : ab.noLex) :
     ActSim δ K ab true (lexEmitEof env inpS ms) (lexEmitEof env inpW mw) := by
   obtain ⟨hc, hr, hsim, hpc⟩ := h
@@ -367,7 +368,7 @@ theorem lexStampTag_sh {cs cw : Common} (hc : CRel δ 0 cs cw) (sim : Sim) (t : 
   | endTag n h => exact ⟨hc, rfl, rfl⟩
 
 /-- `emit_tag_lexeme` and the directive the sink returns -/
-theorem lexEmitTagLexeme_sim (hops : OpsSim env.ops inpS inpW δ K) {ab ab' : Ab} {cs cw : Common}
+theorem lexEmitTagLexeme_sim (hops : OpsSim env.ops inpS inpW δ K Loc) {ab ab' : Ab} {cs cw : Common}
     {ls lw ls0 lw0 : LexRegs} {xs xw : Ctx κ} (sim : Sim) (t : TagOutline) (es : Nat)
     (hc : CRel δ 0 cs cw) (hl : LexRel δ 0 ab cs.nextPos ls0 lw0)
     (hpc : xs.prevConsumed = xw.prevConsumed + δ) (hK : K 0 xs.sink xw.sink)
@@ -406,7 +407,7 @@ theorem lexEmitTagLexeme_sim (hops : OpsSim env.ops inpS inpW δ K) {ab ab' : Ab
       exact ⟨hc.cdataAllowed, hc.lastTextType, hc.lastStartTagNameHash, rfl, rfl⟩
 
 /-- `emit_tag` -/
-theorem lexEmitTag_sim (F : Frame inpS inpW δ) (hops : OpsSim env.ops inpS inpW δ K) {ab ab' : Ab} {cs cw : Common}
+theorem lexEmitTag_sim (F : Frame inpS inpW δ) (hops : OpsSim env.ops inpS inpW δ K Loc) {ab ab' : Ab} {cs cw : Common}
     {ls lw : LexRegs} {xs xw : Ctx κ}
     (hc : CRel δ 0 cs cw) (hl : LexRel δ 0 ab cs.nextPos ls lw) (hP : ab.P = true) (hGn : ab.Gn = true)
     (hGa : ab.Ga = true)
